@@ -5,6 +5,7 @@ import (
 	"fmt"
 	"math/rand"
 	"os"
+	"strings"
 	"sync"
 	"sync/atomic"
 	"time"
@@ -129,10 +130,17 @@ func (cw *c06Writer) do(kind string) error {
 	return nil
 }
 
-func c06Read(w *wal.WAL, reader int, kind string, idx uint64) *hist.ReadOp {
-	r := &hist.ReadOp{Reader: reader, Kind: kind, Index: idx}
+func c06Read(w *wal.WAL, reader int, kind string, idx uint64) (r *hist.ReadOp) {
+	r = &hist.ReadOp{Reader: reader, Kind: kind, Index: idx}
 	r.Call = hist.Ticket()
 	var err error
+	defer func() {
+		// a panic inside a read is an error other than not-found (and would take the process down)
+		if p := recover(); p != nil {
+			r.Ret = hist.Ticket()
+			r.Err = fmt.Sprintf("panic: %v", p)
+		}
+	}()
 	switch kind {
 	case "first":
 		r.Val, err = w.FirstIndex()
@@ -381,7 +389,7 @@ func c06Directed(c *evid.Ctx, point, wkind, rkind string, real bool, seed int64)
 		idx = cw.l.First + uint64(rng.Intn(int(cw.l.Last-cw.l.First+1)))
 	default:
 		idx = cw.l.Last
-		if rng.Intn(2) == 0 {
+		if rng.Intn(2) == 0 || strings.HasPrefix(point, "writer.") {
 			idx = cw.l.Last + 1 // becomes visible
 		}
 	}
@@ -458,11 +466,75 @@ func c06Directed(c *evid.Ctx, point, wkind, rkind string, real bool, seed int64)
 	c06Judge(c, h, map[string]any{"directed": true, "point": point, "writer": wkind, "read": rkind, "index": idx, "real_fs": real, "seed": seed}, "directed")
 }
 
+// c06Follow: readers poll GetLog(next) at the tip of the log while the writer appends
+// single-entry batches: the publication order of the tail's offsets and commit index is
+// exercised at every append. Readers accept not-found or the intact entry only.
+func c06Follow(c *evid.Ctx, seed int64, appends int) {
+	env, err := c06Open(false, 4096)
+	if err != nil {
+		c.Inconclusive("cannot open WAL: %v", err)
+		return
+	}
+	defer env.cleanup()
+	var acked atomic.Uint64
+	var stop atomic.Bool
+	var wg sync.WaitGroup
+	var tipHits, reads atomic.Int64
+	for r := 0; r < 6; r++ {
+		wg.Add(1)
+		go func(r int) {
+			defer wg.Done()
+			next := uint64(1)
+			missed := false
+			for !stop.Load() {
+				a := acked.Load()
+				op := c06Read(env.w, r, "get", next)
+				reads.Add(1)
+				switch {
+				case op.Err != "":
+					c.Violation("C06:unexpected-error:get:follow", fmt.Sprintf("follower read GetLog(%d) at the tip of the log: %s", next, op.Err), map[string]any{"follow_seed": seed, "index": next})
+					return
+				case op.Log == nil:
+					if next <= a {
+						c.Violation("C06:stale-or-future-value:get:follow", fmt.Sprintf("GetLog(%d) not found although the append of %d had been acknowledged before the read started", next, a), map[string]any{"follow_seed": seed, "index": next})
+						return
+					}
+					missed = true
+				default:
+					want := replayEntry(seed, 0, next, 24)
+					if d := model.LogDiff(op.Log, want); d != "" {
+						c.Violation("C06:stale-or-future-value:get:follow", fmt.Sprintf("GetLog(%d) returned a damaged entry: %s", next, d), map[string]any{"follow_seed": seed, "index": next})
+						return
+					}
+					if missed {
+						tipHits.Add(1)
+					}
+					missed = false
+					next++
+				}
+			}
+		}(r)
+	}
+	for i := 1; i <= appends; i++ {
+		if err := env.w.StoreLogs([]*raft.Log{replayEntry(seed, 0, uint64(i), 24)}); err != nil {
+			c.Violation("C06:writer-error", err.Error(), map[string]any{"follow_seed": seed})
+			break
+		}
+		acked.Store(uint64(i))
+	}
+	stop.Store(true)
+	wg.Wait()
+	c.Count("follow_appends", int64(appends))
+	c.Count("follow_reads", reads.Load())
+	c.Count("reads", reads.Load())
+	c.Count("follow_reads_that_caught_the_entry_right_after_a_miss", tipHits.Load())
+}
+
 func runC06(c *evid.Ctx) {
-	c.Rule("histories recorded at the API boundary with tickets from one logical clock: one writer (appends with rotation, head truncation, tail truncation followed by re-append of different content at the same indexes, delete-all followed by a base-index reset) against 2-8 readers on hot indexes (first, last, last+1, just truncated, just re-appended) under seeded hook perturbation, plus directed scripts that park a reader at each window (after loadState before acquire, after acquire, between the bound check and the offsets load, before ReadAt) while each kind of writer op runs to completion; every read is checked against the versions that could have been current during its interval (and independently by porcupine), errors other than not-found are legal only for an index an overlapping truncation removed, entries may only be returned after their batch's fsync completed; all under the race detector; non-trivial = distinct (read kind, overlapping writer op kind, parked-at point) triples with >= 2 candidate versions",
+	c.Rule("histories recorded at the API boundary with tickets from one logical clock: one writer (appends with rotation, head truncation, tail truncation followed by re-append of different content at the same indexes, delete-all followed by a base-index reset) against 2-8 readers on hot indexes (first, last, last+1, just truncated, just re-appended) under seeded hook perturbation, plus directed scripts that park a reader at each window (after loadState before acquire, after acquire, before the tail writer's commitIdx load, before its offsets load, between the bound check and the offsets load, before ReadAt) while each kind of writer op runs to completion; every read is checked against the versions that could have been current during its interval (and independently by porcupine), errors other than not-found are legal only for an index an overlapping truncation removed, entries may only be returned after their batch's fsync completed; all under the race detector; non-trivial = distinct (read kind, overlapping writer op kind, parked-at point) triples with >= 2 candidate versions",
 		"reads", "overlap_triples")
 	c.Assume("tickets order events only when one completes before the other starts; candidate version sets are supersets of the truth")
-	points := []string{"acquireState.loaded", "GetLog.acquired", "offsetForFrame.checked", "readFrame.beforeRead", "FirstIndex.checked", "LastIndex.checked"}
+	points := []string{"acquireState.loaded", "GetLog.acquired", "offsetForFrame.checked", "readFrame.beforeRead", "FirstIndex.checked", "LastIndex.checked", "writer.loadCommitIdx", "writer.loadOffsets"}
 	wkinds := []string{"append", "append-seal", "delete-head", "delete-tail", "reappend", "delete-all", "reset"}
 	reps := 1
 	if !quick(c) {
@@ -520,4 +592,11 @@ func runC06(c *evid.Ctx) {
 	wg.Wait()
 	remove()
 	c.Extra("hook_hits_stress", ctl.Hits())
+	if quick(c) {
+		c06Follow(c, c.Seed, 20000)
+	} else {
+		for k := int64(0); k < 8; k++ {
+			c06Follow(c, c.Seed*17+k, 100000)
+		}
+	}
 }
